@@ -155,15 +155,25 @@ pub struct World {
     pub m: Model,
     pub trace: Vec<String>,
     pub next_backend: u32,
+    /// Vfs::set_remove_pseudo_root(): umount evicts the mount point's pseudo directory (only used with
+    /// single-component paths, so no pseudo directory is ever orphaned)
+    pub remove_pseudo_root: bool,
 }
 
 type Fail = (String, String);
 
 impl World {
     pub fn new(opts: VfsOptions, global: Option<Mapping>) -> World {
-        let vfs = Arc::new(Vfs::new(opts));
+        Self::new_with(opts, global, false)
+    }
+    pub fn new_with(opts: VfsOptions, global: Option<Mapping>, remove_pseudo_root: bool) -> World {
+        let mut v = Vfs::new(opts);
+        if remove_pseudo_root {
+            v.set_remove_pseudo_root();
+        }
+        let vfs = Arc::new(v);
         let conn = Conn::new(vfs.clone());
-        World { conn, vfs, m: Model::new(global), trace: Vec::new(), next_backend: 1 }
+        World { conn, vfs, m: Model::new(global), trace: Vec::new(), next_backend: 1, remove_pseudo_root }
     }
     pub fn drain_logs(&self) -> Vec<(usize, Vec<BCall>)> {
         self.m.backends.iter().enumerate().map(|(i, b)| (i, b.0.take())).filter(|(_, l)| !l.is_empty()).collect()
@@ -219,6 +229,11 @@ impl World {
         match (mnt, res) {
             (Some(m), Ok(_)) => {
                 self.m.mounts.remove(&p.unwrap());
+                if self.remove_pseudo_root && path != "/" {
+                    // the mount point's pseudo directory is evicted: its number is gone, a later mount gets a new one
+                    self.m.pseudo.remove(path);
+                    self.m.handed.retain(|h| *h != p.unwrap());
+                }
                 self.m.slots[m.slot as usize] = None;
                 self.m.slot_mapping[m.slot as usize] = None;
                 let log = self.m.backends[m.backend].0.take();
